@@ -382,6 +382,13 @@ fn vp_deserialize(data: &Vec<u8>) -> (r: Result<Transaction, DecodeError>)
     ensures r.is_ok() <==> is_tx_encoding(data@),
 { unimplemented!() }
 impl Transaction {
+    // [trusted:stand-in] size accessors of a decoded transaction (not used by the current tree): the serialised size of a transaction that
+    // `deserialize` accepted is the length of the payload it was decoded from
+    uninterp spec fn total_size_spec(&self) -> usize;
+    #[verifier::external_body]
+    fn total_size(&self) -> (r: usize) ensures r == self.total_size_spec() { unimplemented!() }
+    #[verifier::external_body]
+    fn vsize(&self) -> (r: usize) { unimplemented!() }
     // [trusted:assumed-spec] Decodable::consensus_decode on a slice reader: decodes a PREFIX and leaves the rest unread
     #[verifier::external_body]
     fn consensus_decode(r: &mut &[u8]) -> (res: Result<Transaction, DecodeError>)
